@@ -15,6 +15,7 @@ HIST_SRC = ["histmon.c", "layoutmon.c", "refcodec.c", "dbh.c", "model.c", "vh.c"
 HARNESSES = {
     # name: (sources, wrap list)
     "histmon": (HIST_SRC, build.WRAP_IO),
+    "concmon": (["concmon.c", "vsched.c", "dbh.c", "model.c", "vh.c", "iomon.c"], build.WRAP_IO + build.WRAP_SCHED),
     "faultmon": (["faultmon.c", "dbh.c", "model.c", "vh.c", "iomon.c"], build.WRAP_IO),
     "dbtool": (["dbtool.c", "dbh.c", "model.c", "vh.c", "iomon.c"], build.WRAP_IO),
     "crashmon": (["crashmon.c", "refcodec.c", "dbh.c", "model.c", "vh.c", "iomon.c"], build.WRAP_IO),
@@ -432,3 +433,126 @@ def c12(ctx):
                     distinct_sites=(agg.d("c12_site"), 40)),
         assumptions=["faults are injected at the libc boundary of this build (open/write/fsync/rename/unlink/close/mkdir/"
                      "read/lseek/mmap/opendir); one rule per run", "single foreground writer"])
+
+
+# ---------------------------------------------------------------------------
+# concurrency family: C08 C09 (+ C04 concurrent half)
+
+HARNESS_FLAVOURS["concmon"] = ("rel",)
+
+
+def conc_jobs(ctx, nprocs, per_proc, native=0, variant=None, first=0, tag="c"):
+    jobs = []
+    for k in range(nprocs):
+        d = os.path.join(ctx.scratch, "conc-%s-%d-%d" % (tag, native, k))
+        args = ["--seed", ctx.seed, "--first", first + k * per_proc, "--count", per_proc, "--native", native, "--dir", d]
+        if variant is not None:
+            v = variant[k % len(variant)] if isinstance(variant, (list, tuple)) else variant
+            args += ["--variant", v]
+        jobs.append(hjob("concmon", "rel", args, "%s/%d/%d" % (tag, native, k), timeout=3000))
+    return jobs
+
+
+def conc_extras(agg):
+    variants = ["mixed", "group-commit", "buffer-stall", "l0-stop", "two-manual-compactions", "backup", "bg-error"]
+    return dict(
+        schedules=agg.n("schedules"), schedules_by_variant={v: agg.n("schedules_" + v) for v in variants},
+        distinct_schedule_signatures=agg.d("schedule_signature"),
+        scheduler_steps=agg.n("sched_steps"), context_switches=agg.n("sched_switches"),
+        writes_acknowledged=agg.n("writes_acknowledged"), commit_groups=agg.n("commit_groups"),
+        merged_commit_groups=agg.n("merged_groups_estimate"),
+        memtable_flushes=agg.n("memtable_flushes"), compactions=agg.n("compactions"),
+        writers_stalled_on_full_memtable=agg.n("waits_memtable_full"), writers_stalled_on_l0_files=agg.n("waits_l0_stop"),
+        reads_checked_single_writer_keys=agg.n("swmr_reads_checked"),
+        reads_overlapping_a_write_of_the_key=agg.n("reads_overlapping_a_write_of_the_key"),
+        reads_checked_shared_keys=agg.n("shared_reads_checked"),
+        snapshot_and_iterator_views_checked=agg.n("views_checked"),
+        views_overlapping_a_write=agg.n("views_overlapping_a_write"),
+        yield_points_between_inserts_of_a_batch=agg.n("hook_skiplist_link"),
+        yield_points_between_wal_append_and_publication=agg.n("hook_write_logged"),
+        condvar_waits=agg.n("cond_waits"), condvar_wakes=agg.n("cond_wakes"),
+        threads_blocked_and_later_woken=agg.n("blocked_and_woken"),
+        distinct_wait_wake_pairs=agg.d("wait_wake_pairs"),
+        spurious_wakeups_injected=agg.n("spurious_wakeups_injected"), mutex_blocks=agg.n("mutex_blocks"),
+        watchdog_expired=agg.n("watchdog_expired"))
+
+
+@register("C08")
+def c08(ctx):
+    """Concurrent operations are linearizable (boundary histories under a serialising scheduler + native runs)."""
+    if ctx.replay:
+        return do_replay(ctx)
+    if ctx.quick:
+        jobs = conc_jobs(ctx, 16, 50, native=0, variant=[0, 0, 1, 0, 2, 0, 4, 5], tag="c08") + \
+            conc_jobs(ctx, 4, 25, native=1, variant=[0, 1], first=100000, tag="c08n")
+    else:
+        jobs = conc_jobs(ctx, 64, 600, native=0, variant=[0, 0, 1, 0, 2, 3, 4, 5], tag="c08") + \
+            conc_jobs(ctx, 16, 150, native=1, variant=[0, 1, 2], first=1000000, tag="c08n")
+    agg = Agg().add(runner.run_jobs(jobs))
+    return runner.finish(
+        "C08", "exploration", ctx.tier, ctx.seed, ctx.t0, agg,
+        rule="2..8 threads (single-writer key sets with unique values, shared keys, snapshot/iterator views, flush/"
+             "compaction/backup) under a seeded serialising scheduler (random walk, PCT, background starved/greedy) with "
+             "yield points at every lock/condvar/libc I/O call and inside batch inserts, plus native runs with injected "
+             "delays; histories recorded at the client boundary; checkers: SWMR register per key, Gibbons-Korach zones for "
+             "shared keys, consistent cuts for views, final state; distinct = schedule signatures (hash of the switch sequence)",
+        evaluations=agg.n("schedules"), distinct_nontrivial=agg.d("schedule_signature"), extras=conc_extras(agg),
+        floors=dict(schedules=(agg.n("schedules"), 200), overlapping_reads=(agg.n("reads_overlapping_a_write_of_the_key"), 1000),
+                    merged_groups=(agg.n("merged_groups_estimate"), 50), views=(agg.n("views_overlapping_a_write"), 200),
+                    flushes=(agg.n("memtable_flushes"), 100), nontrivial=(agg.n("nontrivial_histories"), 50)),
+        assumptions=["schedules are sampled (random/PCT), not enumerated; the serialising scheduler runs under sequential "
+                     "consistency (memory-order defects are C10's)", "timestamps = scheduler steps (logical clock)"])
+
+
+@register("C09")
+def c09(ctx):
+    """No deadlock, lost wake-up or stuck call (logical deadlock detector of the serialising scheduler)."""
+    if ctx.replay:
+        return do_replay(ctx)
+    if ctx.quick:
+        jobs = conc_jobs(ctx, 16, 50, native=0, variant=[2, 3, 4, 5, 6, 1, 0, 2], first=50000, tag="c09")
+    else:
+        jobs = conc_jobs(ctx, 64, 800, native=0, variant=[2, 3, 4, 5, 6, 1, 0, 2], first=50000, tag="c09")
+    agg = Agg().add(runner.run_jobs(jobs))
+    return runner.finish(
+        "C09", "exploration", ctx.tier, ctx.seed, ctx.t0, agg,
+        rule="stall scenarios (writers behind a group commit, full write buffer with the flush starved, level-0 stop, two "
+             "concurrent manual compactions, backup during compaction, injected background errors, close right after the last "
+             "call with background work scheduled) under every scheduler strategy incl. background starved / greedy and "
+             "injected spurious wake-ups; violation = no runnable thread while some thread is unfinished, a call beyond the "
+             "step bound, destroy of a locked mutex / waited condvar; distinct = schedule signatures; non-trivial = a thread "
+             "blocked on a condition variable and was woken",
+        evaluations=agg.n("schedules"), distinct_nontrivial=agg.d("schedule_signature"), extras=conc_extras(agg),
+        floors=dict(schedules=(agg.n("schedules"), 200), block_and_wake=(agg.n("schedules_with_block_and_wake"), 150),
+                    stalls=(agg.n("waits_memtable_full"), 100), wake_pairs=(agg.d("wait_wake_pairs"), 3)),
+        assumptions=["bounded form of the liveness claim: every call returns within 6e6 scheduler steps in every explored "
+                     "schedule; ldb_close concurrent with another call on the same handle is outside the handle contract"])
+
+
+@register("C04")
+def c04(ctx):
+    """Write batches are all-or-nothing (crash images with large batches + concurrent views under the scheduler)."""
+    if ctx.replay:
+        return do_replay(ctx)
+    if ctx.quick:
+        jobs = crash_jobs(ctx, "c04", 8, 30, 0, 1, 0) + \
+            conc_jobs(ctx, 8, 50, native=0, variant=[0, 1], first=200000, tag="c04")
+    else:
+        jobs = crash_jobs(ctx, "c04", 64, 150, 0, 2, 16) + \
+            conc_jobs(ctx, 32, 600, native=0, variant=[0, 1], first=200000, tag="c04") + \
+            conc_jobs(ctx, 8, 150, native=1, variant=[0, 1], first=2000000, tag="c04n")
+    agg = Agg().add(runner.run_jobs(jobs))
+    extras = crash_extras(agg)
+    extras.update(conc_extras(agg))
+    return runner.finish(
+        "C04", "fault_enumeration", ctx.tier, ctx.seed, ctx.t0, agg,
+        rule="crash half: batches of 1..3000 updates (several 32 KiB log blocks) x every crash point x all image kinds: "
+             "scan == fold(markers present), a marker without one of its updates (or vice versa) is a partial batch; "
+             "concurrent half: every snapshot/iterator view taken while writers commit (group commit, yields between the "
+             "inserts of one batch) must equal the state after a whole number of each writer's batches; distinct = distinct "
+             "crash images + schedule signatures",
+        evaluations=agg.n("images") + agg.n("views_checked"),
+        distinct_nontrivial=agg.d("c05_image") + agg.d("schedule_signature"), extras=extras,
+        floors=dict(images=(agg.n("images"), 1500), large_batches=(agg.n("large_batches"), 20),
+                    views=(agg.n("views_overlapping_a_write"), 100), torn=(agg.n("torn_images"), 100)),
+        assumptions=CRASH_ASSUME + ["views are checked per writer (thread-owned key sets)"])
